@@ -97,6 +97,10 @@ Fixpoint awaiting (f : nat) (l : list (nat * task)) : option nat :=
   | (k, t) :: tl => match t_pc t with PcAwait f' => if Nat.eqb f f' then Some k else awaiting f tl | _ => awaiting f tl end
   end.
 Definition push (s : st) (c : cb) : st := s <| s_ready := s_ready s ++ [c] |>.
+(* the future of lock waiter w has been completed by release() (and the waiter has not run yet) *)
+Definition woken (s : st) (w : nat) : bool := existsb (fun p => Nat.eqb (fst p) w && snd p) (s_waiters s).
+(* a wake-up of task k is already scheduled *)
+Definition has_task (k : nat) (l : list cb) : bool := existsb (fun c => match c with CbTask k' => Nat.eqb k k' | _ => false end) l.
 
 (* completing a future schedules the wake-up of the task awaiting it *)
 Definition complete (s : st) (f : nat) (v : fstat) : st :=
@@ -286,7 +290,9 @@ End Attempt.
 
 Fixpoint sr_attempt (fuel : nat) (s : st) (k : nat) (depth : nat) {struct fuel} : st * list action :=
   match fuel with
-  | O => sr_unwind s k depth (RRaise XCancelled)       (* unreachable: fuel = retries + 2 *)
+  | O => (* out of fuel -- unreachable (fuel = retries + 2, each recursive call increments _retry <= retries); flagged as an
+            exception in the loop so that it can never pass for a normal outcome *)
+         let '(s', a) := exec_finish s k (RRaise XCancelled) in (s', ALoopExc :: a)
   | S fuel' => sr_attempt_body (sr_attempt fuel') s k depth
   end.
 
@@ -301,6 +307,8 @@ Definition task_step (s : st) (k : nat) : st * list action :=
       match t_pc tk with
       | PcStart => sr_attempt (S (fuel_of s)) s k 0
       | PcLockWait w =>
+          (* `await fut` inside Lock.acquire() only returns once release() has completed this waiter's future *)
+          if negb (woken s w) then (s, []) else
           let s := s <| s_waiters := filter (fun p => negb (Nat.eqb (fst p) w)) (s_waiters s) |> <| s_lock := true |> <| s_owner := Some k |> in
           sr_locked (sr_attempt (fuel_of s)) s k depth
       | PcConnWait t =>
@@ -324,6 +332,7 @@ Definition task_step (s : st) (k : nat) : st * list action :=
           end
       | PcCloseLockWait w r =>
           (* the value was computed before the `finally`; completed futures never change, so reading it now is the same *)
+          if negb (woken s w) then (s, []) else
           let o := outcome_of s r in
           let s := s <| s_waiters := filter (fun p => negb (Nat.eqb (fst p) w)) (s_waiters s) |> <| s_lock := true |> <| s_owner := Some k |> in
           (set_pc (lock_release (close_transport s)) k PcDone, [ADone k o])
@@ -338,6 +347,7 @@ Definition task_step (s : st) (k : nat) : st * list action :=
                    (set_pc (s <| s_waiters := s_waiters s ++ [(w, false)] |> <| s_nextw := S w |>) k (PcCloseOnlyWait w), [])
           end
       | PcCloseOnlyWait w =>
+          if negb (woken s w) then (s, []) else
           let s := s <| s_waiters := filter (fun p => negb (Nat.eqb (fst p) w)) (s_waiters s) |> <| s_lock := true |> <| s_owner := Some k |> in
           (set_pc (lock_release (close_transport s)) k PcDone, [ACloseDone k])
       | PcDone => (s, [])
@@ -416,7 +426,11 @@ Definition run_cb (s : st) (c : cb) : st * list action :=
       match get_task k (s_tasks s) with
       | Some tk => if t_wf tk then
                      match t_pc tk with
-                     | PcConnWait _ | PcConnHang => (push (upd_task s k (fun x => x <| t_cancelled := true |> <| t_wf := false |>)) (CbTask k), [])
+                     | PcConnWait _ | PcConnHang =>
+                         (* Task.cancel(): cancels the awaited future (which schedules the task) unless that future is already
+                            done and the wake-up already scheduled -- then only the must-cancel flag is set *)
+                         let s' := upd_task s k (fun x => x <| t_cancelled := true |> <| t_wf := false |>) in
+                         (if has_task k (s_ready s) then s' else push s' (CbTask k), [])
                      | _ => (s, []) end
                    else (s, [])
       | None => (s, []) end
